@@ -6,6 +6,7 @@ package actionlint
 // a model written by vcheck; checks report instead of asking a solver.
 
 import (
+	"gopkg.in/yaml.v3"
 	"encoding/json"
 	"fmt"
 	"os"
@@ -253,4 +254,12 @@ func verifReplayAll(run func(name string, args []int64) bool) {
 	for _, c := range cases {
 		verifRunCase(c, run)
 	}
+}
+
+func verifParseYAML(src string) *yaml.Node {
+	var n yaml.Node
+	if err := yaml.Unmarshal([]byte(src), &n); err != nil {
+		panic(err)
+	}
+	return &n
 }
